@@ -5,25 +5,37 @@ use crate::core::{Ctx, Report};
 pub mod c01;
 pub mod c04;
 pub mod c05;
+pub mod c06;
+pub mod c06_catalogue;
+pub mod c06_dbgnorm;
 pub mod c10;
 pub mod c11;
 pub mod c13;
+pub mod c14;
+pub mod c15;
+pub mod c16;
 pub mod c17;
 pub mod c18;
 pub mod c19;
 pub mod c20;
 pub mod c24;
 pub mod c25;
+pub mod c26;
+pub mod c26_svlex;
 pub mod c27;
 pub mod c28;
 pub mod c29;
 pub mod c31;
 pub mod c32;
+pub mod c35;
+pub mod c35_guest;
 pub mod c36;
 pub mod df;
 pub mod projgen;
 pub mod robust_worker;
 
+#[path = "../gen_abs.rs"]
+pub mod gen_abs;
 #[path = "../gen_synth.rs"]
 pub mod gen_synth;
 #[path = "../r3_netlist.rs"]
@@ -40,20 +52,26 @@ pub fn registry() -> Vec<(&'static str, CheckFn)> {
         ("C01", c01::run as CheckFn),
         ("C04", c04::run as CheckFn),
         ("C05", c05::run as CheckFn),
+        ("C06", c06::run as CheckFn),
         ("C10", c10::run as CheckFn),
         ("C11", c11::run as CheckFn),
         ("C13", c13::run as CheckFn),
+        ("C14", c14::run as CheckFn),
+        ("C15", c15::run as CheckFn),
+        ("C16", c16::run as CheckFn),
         ("C17", c17::run as CheckFn),
         ("C18", c18::run as CheckFn),
         ("C19", c19::run as CheckFn),
         ("C20", c20::run as CheckFn),
         ("C24", c24::run as CheckFn),
         ("C25", c25::run as CheckFn),
+        ("C26", c26::run as CheckFn),
         ("C27", c27::run as CheckFn),
         ("C28", c28::run as CheckFn),
         ("C29", c29::run as CheckFn),
         ("C31", c31::run as CheckFn),
         ("C32", c32::run as CheckFn),
+        ("C35", c35::run as CheckFn),
         ("C36", c36::run as CheckFn),
     ]
 }
@@ -70,15 +88,20 @@ pub fn replay(path: &str) -> i32 {
     match doc["property"].as_str().unwrap_or("") {
         "C01" => c01::replay(&doc),
         "C04" => c04::replay(&doc),
+        "C06" => c06::replay(&doc),
         "C10" => c10::replay(&doc),
         "C11" => c11::replay(&doc),
         "C13" => c13::replay(&doc),
+        "C14" => c14::replay(&doc),
+        "C15" => c15::replay(&doc),
+        "C16" => c16::replay(&doc),
         "C17" => c17::replay(&doc),
         "C18" => c18::replay(&doc),
         "C19" => c19::replay(&doc),
         "C20" => c20::replay(&doc),
         "C24" => c24::replay(&doc),
         "C25" => c25::replay(&doc),
+        "C26" => c26::replay(&doc),
         "C27" => c27::replay(&doc),
         "C28" => c28::replay(&doc),
         "C31" => c31::replay(&doc),
